@@ -1,0 +1,21 @@
+//go:build verif
+
+// Machine-checked contracts for package imageblk (comment-only; read by /verif/cmd/govc).
+
+package imageblk
+
+// ---- advertised extents cover every written voxel (C17) ----
+// PutVoxels posts the written box to the version's extents before it writes any block: extents are stored
+// per version, so a shortcut based on the instance-wide cache (which reflects whichever version was written
+// last) would leave a branch advertising less than it holds. The spawned closure is executed at the go
+// statement (flag go_inline), so that the call of PostExtents is seen.
+//@ func Data.PutVoxels
+//@   prop C17
+//@   requires d != nil && vox != nil
+//@   safety_off
+//@   calls_havoc
+//@   go_inline
+//@   modifies *
+//@   ghost posted bool = false
+//@   ghostset at "err := d.PostExtents(ctx, vox.StartPoint(), vox.EndPoint())": posted = true
+//@   assert at "i0, i1, err := it.IndexSpan()": posted
